@@ -19,7 +19,7 @@ func init() { checks["C18"] = c18 }
 func c18(args []string) {
 	c := chk.New("C18", "exploration", args)
 	c.Build(false)
-	c.Rule("[gaps] one to three runs whose second member is produced 10.6-13.6 s after the first (limit 1): all members, once; [carrier through MapToTags] in every fifth case the carrier of the sub-stream passes a tagging component before the joining process; [two members per producing task: both out-ports of the upstream process wired into one sub-stream] [path shapes] sub-streams whose members mix relative, parent-relative and absolute paths (command and Go-function consumers): all members, arrival order, each readable from the task's working directory, each an Upstream key; src(n) -> 1 or 2 upstream processes (random task durations) -> recorder -> StreamToSubStream -> task with {i:x|join:SEP}: sub-stream lengths {0,1,2,B,B+1,3B} for SCIPIPE_BUFSIZE B in {1,3} (thorough also 128), separators {' ', ',', ':', ' -I ', '.and.', '..'} (and, printed by printf, separators containing a newline; the same joined port used three times in one command with different modifiers; a Go function writing through OutIP().Write() in a task with a joined in-port; two sub-streams reaching one joined in-port with default output names; the same file arriving twice on one sub-stream; a sub-stream fed by a hand-written component instead of StreamToSubStream; members that carry tags of their own), maxConcurrentTasks in {1,4}; without modifiers the task command is vcmd, which opens every path it was given from its working directory; with modifiers (%.txt, s/x/y/, basename; written behind or in front of the join directive) the command is an echo and only the strings are judged; oracle: exactly one start event of the joining process, the member paths in its argv == the sequence the recorder in front of the sub-stream saw (arrival order), all readable, the recorded command contains them joined by exactly SEP with modifiers applied to each member, audit Upstream keys == member paths and each names the upstream task; plus close storms: 2-8 one-file sources fan into a StreamToSubStream, built and run 1500-3000 times inside one child process (hooks passive in most of them) - exactly one sub-stream must come out per run. distinct_nontrivial = distinct (length, B, separator, modifiers, fan-in, config) cases")
+	c.Rule("[fan-in straight into StreamToSubStream] two upstream processes wired into the component itself: every member once, each upstream's members in that upstream's order; [gaps] one to three runs whose second member is produced 10.6-13.6 s after the first (limit 1): all members, once; [carrier through MapToTags] in every fifth case the carrier of the sub-stream passes a tagging component before the joining process; [two members per producing task: both out-ports of the upstream process wired into one sub-stream] [path shapes] sub-streams whose members mix relative, parent-relative and absolute paths (command and Go-function consumers): all members, arrival order, each readable from the task's working directory, each an Upstream key; src(n) -> 1 or 2 upstream processes (random task durations) -> recorder -> StreamToSubStream -> task with {i:x|join:SEP}: sub-stream lengths {0,1,2,B,B+1,3B} for SCIPIPE_BUFSIZE B in {1,3} (thorough also 128), separators {' ', ',', ':', ' -I ', '.and.', '..'} (and, printed by printf, separators containing a newline; the same joined port used three times in one command with different modifiers; a Go function writing through OutIP().Write() in a task with a joined in-port; two sub-streams reaching one joined in-port with default output names; the same file arriving twice on one sub-stream; a sub-stream fed by a hand-written component instead of StreamToSubStream; members that carry tags of their own), maxConcurrentTasks in {1,4}; without modifiers the task command is vcmd, which opens every path it was given from its working directory; with modifiers (%.txt, s/x/y/, basename; written behind or in front of the join directive) the command is an echo and only the strings are judged; oracle: exactly one start event of the joining process, the member paths in its argv == the sequence the recorder in front of the sub-stream saw (arrival order), all readable, the recorded command contains them joined by exactly SEP with modifiers applied to each member, audit Upstream keys == member paths and each names the upstream task; plus close storms: 2-8 one-file sources fan into a StreamToSubStream, built and run 1500-3000 times inside one child process (hooks passive in most of them) - exactly one sub-stream must come out per run. distinct_nontrivial = distinct (length, B, separator, modifiers, fan-in, config) cases")
 	c.Assume("with two upstream processes the arrival order is whatever the recorder saw; it is not predicted")
 	rng := c.Rand("c18")
 	type job struct {
@@ -240,6 +240,7 @@ func c18(args []string) {
 		}
 	})
 	c18two(c)
+	c18fanInDirect(c)
 	c18corners(c)
 	c18pathShapes(c)
 	closeStorm(c, "substream")
@@ -669,5 +670,92 @@ func c18pathShapes(c *chk.Ctx) {
 		}
 		c.Count("mixed_path_shape_joins", 1)
 		c.Nontrivial(fmt.Sprintf("joinpaths|%d|%s|%v", n, sepName, cfg))
+	})
+}
+
+// c18fanInDirect: two upstream processes are wired straight into StreamToSubStream (no recorder in between that would
+// serialise them). The interleaving of the two is free, but every member arrives once and the members of one upstream
+// keep their order.
+func c18fanInDirect(c *chk.Ctx) {
+	run.Parallel(c.Pick(4, 12), func(i int) {
+		root := c.CaseDir()
+		defer c.Drop(root)
+		n := 5 + i%4
+		s := &spec.Spec{Name: "faninsubstream", MaxTasks: 4, Sources: map[string]string{}}
+		for u := 0; u < 2; u++ {
+			src := &spec.Proc{Name: fmt.Sprintf("src%d", u), Kind: spec.KFileSource}
+			for k := 0; k < n; k++ {
+				f := fmt.Sprintf("w%d_%02d.txt", u, k)
+				src.Files = append(src.Files, f)
+				s.Sources[f] = f + "\n"
+			}
+			un := fmt.Sprintf("U%d", u)
+			s.Procs = append(s.Procs, src, &spec.Proc{Name: un, Kind: spec.KCmd, Cmd: spec.BuildCmd(un, []spec.PortDecl{{Name: "in"}}, []spec.PortDecl{{Name: "out"}}, nil, nil, nil)})
+			s.Conns = append(s.Conns, &spec.Conn{From: src.Name + ".out", To: un + ".in"}, &spec.Conn{From: un + ".out", To: "SS.in"})
+		}
+		s.Procs = append(s.Procs, &spec.Proc{Name: "SS", Kind: spec.KSubStream},
+			&spec.Proc{Name: "JN", Kind: spec.KCmd, Cmd: spec.BuildCmd("JN", []spec.PortDecl{{Name: "in", Join: "space"}}, []spec.PortDecl{{Name: "out"}}, nil, nil, nil), Outs: []*spec.Out{{Port: "out", Pattern: "joined.out"}}})
+		s.Conns = append(s.Conns, &spec.Conn{From: "SS.substream", To: "JN.in"})
+		cfg := Cfg{Buf: []int{1, 9, 17, 3}[i%4], Procs: 4, NoHooks: i%2 == 1}
+		desc := map[string]interface{}{"spec": s, "cfg": cfg, "members_per_upstream": n}
+		res := execSpec(c, root, s, cfg, nil, false, 0)
+		if res.Hang != "" {
+			if strings.HasPrefix(res.Hang, "deadlock") {
+				c.Violation("join-hang", res.Hang+"\n"+clip(res.HangInfo, 600), desc)
+			} else {
+				c.Inconclusive(res.Hang)
+			}
+			return
+		}
+		if res.Exit != 0 || !res.Returned {
+			c.Violation("join-run-failed", fmt.Sprintf("exit %d: %s", res.Exit, tail(res.Output(), 400)), desc)
+			return
+		}
+		ti := mon.Index(res.Trace)
+		var got []string
+		for _, evs := range ti.Starts {
+			for _, e := range evs {
+				if e.ID == "JN" {
+					for _, m := range vproto.Parse(e.Argv).Joined {
+						got = append(got, filepath.Base(vproto.NormIn(m)))
+					}
+				}
+			}
+		}
+		var ps []mon.Problem
+		if len(got) != 2*n {
+			ps = append(ps, mon.Problem{Sig: "joined-paths-set", Msg: fmt.Sprintf("the joined command received %d members, the two upstreams made %d", len(got), 2*n)})
+		}
+		for u := 0; u < 2; u++ {
+			last := -1
+			seen := map[int]bool{}
+			for _, m := range got {
+				var uu, k int
+				if _, err := fmt.Sscanf(m, "w%d_%02d.txt", &uu, &k); err != nil || uu != u {
+					continue
+				}
+				if seen[k] {
+					ps = append(ps, mon.Problem{Sig: "joined-paths-set", Msg: "member " + m + " arrived twice"})
+				}
+				seen[k] = true
+				if k < last {
+					ps = append(ps, mon.Problem{Sig: "joined-paths-order:per-upstream", Msg: fmt.Sprintf("members of upstream U%d arrived out of that upstream's order: %v", u, got)})
+					break
+				}
+				last = k
+			}
+			if len(seen) != n {
+				ps = append(ps, mon.Problem{Sig: "joined-paths-set", Msg: fmt.Sprintf("%d of %d members of upstream U%d arrived", len(seen), n, u)})
+			}
+		}
+		if len(ps) > 0 {
+			for _, sig := range sigSet(ps) {
+				desc["problems"] = mon.Summarize(ps, 10)
+				c.Violation(sig, "fan-in straight into StreamToSubStream: "+strings.Join(mon.Summarize(ps, 3), "\n  "), desc)
+			}
+			return
+		}
+		c.Count("members_compared", 2*n)
+		c.Nontrivial(fmt.Sprintf("fanindirect|%d|%v", n, cfg))
 	})
 }
